@@ -53,6 +53,8 @@ pub(crate) struct DhtHandler {
 
     // TableRefresh action.
     refresh: TableRefresh,
+    // Whether the periodic refresh (which re-schedules itself) has been started.
+    refresh_started: bool,
     // Ongoing TableLookups.
     lookups: HashMap<ActionID, TableLookup>,
 }
@@ -98,6 +100,7 @@ impl DhtHandler {
             next_bootstrap_txs_id: 0,
             bootstrap_txs: HashMap::new(),
             refresh: table_refresh,
+            refresh_started: false,
             lookups: HashMap::new(),
         }
     }
@@ -430,8 +433,12 @@ impl DhtHandler {
             tx.send(()).unwrap_or(())
         }
 
-        // Start the refresh action.
-        self.handle_check_table_refresh().await;
+        // Start the refresh action. It keeps re-scheduling itself, so it is started only once:
+        // starting it again on every re-bootstrap would add another periodic refresh each time.
+        if !self.refresh_started {
+            self.refresh_started = true;
+            self.handle_check_table_refresh().await;
+        }
     }
 
     async fn handle_start_lookup(&mut self, lookup: StartLookup) {
